@@ -48,7 +48,7 @@ func (p *Project) Clone() *Project {
 	q := *p
 	q.Files = make([]GenFile, len(p.Files))
 	for i, f := range p.Files {
-		q.Files[i] = GenFile{Path: f.Path, Data: append([]byte(nil), f.Data...), CRLF: f.CRLF}
+		q.Files[i] = GenFile{Path: f.Path, Data: append([]byte(nil), f.Data...), CRLF: f.CRLF, Special: f.Special}
 	}
 	q.Keywords = append([]KW(nil), p.Keywords...)
 	q.Features = append([]string(nil), p.Features...)
